@@ -8,14 +8,15 @@ C19 driver.
   bytes   = hex | `-` (empty);  optional bytes: `~` = absent
   slot    = <file> <p.BASE> <p.THIS> <p.OTHER> <record ~|text|contents> <id item|this|other|base|none>
 
-  tm <reprocess T|F> <showbase T|F> <this lines> <regions>
+  tm <reprocess T|F> <showbase T|F> <base lines> <this lines> <other lines> <regions>
         -> `ok <flag T|F> <lines>` | `E:…`
   mf <reprocess> <showbase> <base lines> <this lines> <other lines> <regions>
         -> slot after the merge (Outcome.slot) | `E:…`
   rt <this|other> <slot>   -> slot | `E:Malformed`       (TextConflict take-this / take-other)
   rc <this|other> <slot>   -> slot                       (ContentsConflict take-this / take-other)
   sl <bytes>               -> lines                      (split_lines)
-  ns <showbase> <regions>  -> T|F                        (hypothesis NoSentinel)
+  fi <showbase> <base lines> <this lines> <other lines> <regions> -> T|F   (hypothesis FromInputs)
+  mk <base lines> <this lines> <other lines>             -> bytes  (the start marker text_merge uses)
 -/
 namespace BreezyVerif.C19
 
@@ -76,13 +77,13 @@ def parseSide (s : String) : Option Side :=
   if s == "this" then some .this else if s == "other" then some .other else none
 
 def handle : List String → String
-  | ["tm", r, s, this, regions] =>
-    match parseBool r, parseBool s, parseLines this, parseRegions regions with
-    | some r, some s, some this, some regions =>
-      match textMerge ⟨r, s⟩ this regions with
+  | ["tm", r, s, base, this, other, regions] =>
+    match parseBool r, parseBool s, parseLines base, parseLines this, parseLines other, parseRegions regions with
+    | some r, some s, some base, some this, some other, some regions =>
+      match textMerge ⟨r, s⟩ base this other regions with
       | .error e => showErr e
       | .ok (ls, flag) => s!"ok {showBool flag} {showLines ls}"
-    | _, _, _, _ => "bad-op"
+    | _, _, _, _, _, _ => "bad-op"
   | ["mf", r, s, base, this, other, regions] =>
     match parseBool r, parseBool s, parseLines base, parseLines this, parseLines other, parseRegions regions with
     | some r, some s, some base, some this, some other, some regions =>
@@ -108,10 +109,15 @@ def handle : List String → String
     match fromHex t with
     | some t => showLines (splitLines t)
     | none => "bad-op"
-  | ["ns", s, regions] =>
-    match parseBool s, parseRegions regions with
-    | some s, some regions => showBool (decide (NoSentinel s regions))
-    | _, _ => "bad-op"
+  | ["fi", s, base, this, other, regions] =>
+    match parseBool s, parseLines base, parseLines this, parseLines other, parseRegions regions with
+    | some s, some base, some this, some other, some regions =>
+      showBool (decide (FromInputs s base this other regions))
+    | _, _, _, _, _ => "bad-op"
+  | ["mk", base, this, other] =>
+    match parseLines base, parseLines this, parseLines other with
+    | some base, some this, some other => toHex (freshMarker base other this)
+    | _, _, _ => "bad-op"
   | _ => "bad-op"
 
 end BreezyVerif.C19
